@@ -176,7 +176,7 @@ fn build_system(node: roxmltree::Node) -> VypSystem {
             let has_heat_recovery = ["Sí tiene", "Si", "Sí"].contains(
                 &get_tag_text(&node, "recuperacionCalor")
                     .map(|s| s.trim().trim_matches('"'))
-                    .unwrap(),
+                    .unwrap_or_default(),
             );
             // Solo conductos 2
             let heat_recovery_eff = get_tag_as_f32_or_default(&node, "eficienciaRecuperador");
